@@ -1,8 +1,17 @@
 
-use crate::model::{ EditAttribute,get_list};
+use crate::model::EditAttribute;
 use crate::error;
 use syn::punctuated::Punctuated;
 use proc_macro_error::abort;
+
+/// the list of an `edit` argument, an empty list `name()` has no meaning
+fn get_list(meta: &syn::Meta, help: Option<&str>) -> Option<Punctuated::<syn::Meta,syn::Token![,]>> {
+    let list = crate::model::get_list(meta,help);
+    if let Some(list) = &list {
+        if list.is_empty() { abort!(meta,error::EXPECT_NOT_EMPTY_LIST; help=error::AVAIL_EDIT); }
+    }
+    list
+}
 
 #[derive(Debug, Eq, PartialEq, Clone)]
 pub struct EditActor {
